@@ -20,8 +20,8 @@ SET_SETS_THOROUGH = SET_SETS_QUICK + ",settree:9:9,settree:10:8,settree:11:1,set
 LIST_SETS_QUICK = "maplist:8:8,setlist:8:0,maplist:7:1,setlist:7:9,maplist:9:300,setlist:9:8,maplist:6:0,setlist:6:1"
 LIST_SETS_THOROUGH = LIST_SETS_QUICK + ",maplist:11:8,setlist:11:0,maplist:12:1,setlist:12:9,maplist:10:0,setlist:10:8,maplist:13:9,setlist:13:1"
 
-MIRI_KEY = dict(profile="tiny-dense,small-coincidence,clear-heavy", maxlen=36)
-MIRI_ORD = dict(profile="tiny-churn,small-mixed,clear-and-reuse", maxlen=40)
+MIRI_KEY = dict(profile="tiny-dense,small-coincidence,clear-heavy,phased-small", maxlen=36)
+MIRI_ORD = dict(profile="tiny-churn,small-mixed,clear-and-reuse,phased", maxlen=40)
 
 
 def nsets(s):
@@ -440,11 +440,11 @@ def _plan(prop, T):
         return dict(
             jobs=[
                 ord_closure("dbg", "held", T, held_depth=3 if T else 2),
-                ord_random("dbg", "held", "maptree+settree+maptree-int+settree-int", 4800, T, profile="handles-held-across-inserts,small-mixed,medium,clear-and-reuse"),
-                ord_random("rel", "held", "maptree+settree", 4800, T, profile="handles-held-across-inserts,medium", seed_offset=3),
+                ord_random("dbg", "held", "maptree+settree+maptree-int+settree-int", 4800, T, profile="handles-held-across-inserts,small-mixed,medium,clear-and-reuse,phased"),
+                ord_random("rel", "held", "maptree+settree", 4800, T, profile="handles-held-across-inserts,medium,phased", seed_offset=3),
                 dict(flavour="rel", suite="ord-random", args=dict(mon="held", coll="maptree+settree", profile="marathon"), shards=16, budget=16 * 1, timeout=3400 if T else 600, seed_offset=62),
                 dict(flavour="rel", suite="big", args=dict(max_n=4000000 if T else 1600000, probes="held"), shards=16, timeout=3400 if T else 600),
-                miri("ord-random", 64, 8, T, mon="held", coll="maptree+settree", profile="handles-held-across-inserts,small-mixed", maxlen=40),
+                miri("ord-random", 64, 8, T, mon="held", coll="maptree+settree", profile="handles-held-across-inserts,small-mixed,phased", maxlen=40),
                 # "any number of subsequent insertions", read literally: also insertions of keys that are already stored
                 dict(flavour="dbg", suite="dup-held", args=dict(), shards=16, budget=48000 * (8 if T else 1), seed_offset=5),
                 dict(flavour="rel", suite="dup-held", args=dict(), shards=16, budget=96000 * (8 if T else 1), seed_offset=6),
